@@ -32,6 +32,23 @@ class TagInterp(Interp):
             k, v = self.sem._pending_pay
             path.pay[k] = v
             self.sem._pending_pay = None
+        # tuples: `t = (a, b)` remembers the tags of its fields, `x = t.i` gets field i's tag back (one level)
+        lhs, rv = st.get('lhs'), st.get('rv')
+        if lhs is not None and rv is not None and not lhs.get('p'):
+            base = (body.id, lhs['l'])
+            for k in [k for k in path.tags if len(k) == 3 and k[:2] == base]:
+                del path.tags[k]
+            if rv['k'] == 'agg' and rv.get('ak') == 'tuple':
+                for i, o in enumerate(rv['ops']):
+                    pl = op_place(o)
+                    if pl is not None and not pl.get('p') and (body.id, pl['l']) in path.tags:
+                        path.tags[base + (i,)] = path.tags[(body.id, pl['l'])]
+            elif rv['k'] == 'use':
+                src = op_place(rv['op'])
+                if src is not None and len(src.get('p') or []) == 1 and src['p'][0].startswith('f:') and src['p'][0][2:].isdigit():
+                    t = path.tags.get((body.id, src['l'], int(src['p'][0][2:])))
+                    if t is not None:
+                        path.tags[base] = t
         if self.sem._pending is not None:
             k, tag = self.sem._pending
             if tag is None:
